@@ -1,5 +1,7 @@
 import DaskModel.DriverLib
 import DaskModel.Model.TextBlocks
+import DaskModel.Model.BagReduce
+import DaskModel.Model.BagSample
 open Dask
 
 namespace BagDriver
@@ -111,6 +113,90 @@ def tableC50 : List (String × Handler) := [
 
 end BagDriver
 
-def table : List (String × Handler) := BagDriver.tableC50
+namespace BagDriver
+open Dask.BagReduce Dask.BagSample
+
+/-! ### C49 -/
+
+def fnOf (l : List Nat) (dflt : Nat) : Nat → Nat := fun j => l.getD j dflt
+
+def pairOutL (r : List Nat × Nat) : SExp := .list [SExp.ofNats r.1, SExp.ofNat r.2]
+
+/-- `((s…) n)` inputs of a reduce node -/
+def toInputs? (e : SExp) : Option (List (List Nat × Nat)) := do
+  (← e.toList?).mapM fun x => match x with
+    | .list [s, n] => do pure (← s.toNats?, ← n.toNat?)
+    | _ => none
+
+/-- `(samplemap k (geoms…) (slots…) (pop…))` ↦ `((reservoir…) stream_length)` -/
+def hSampleMap : Handler := handler fun args =>
+  match args with
+  | [k, g, sl, pop] => do
+    pure (pairOutL (sampleMapPartitions (← k.toNat?) (fnOf (← g.toNats?) 1) (fnOf (← sl.toNats?) 0) (← pop.toNats?)))
+  | _ => none
+
+/-- `(choicesmap k (geoms…) (pop…))` ↦ `(ok (reservoir…) n)` | `(raised)` -/
+def hChoicesMap : Handler := handler fun args =>
+  match args with
+  | [k, g, pop] => do
+    match choicesMapPartitions (← k.toNat?) (fnOf (← g.toNats?) 1) (← pop.toNats?) with
+    | some r => pure (.list [.sym "ok", SExp.ofNats r.1, SExp.ofNat r.2])
+    | none => pure raised
+  | _ => none
+
+/-- `(samplereduce k (keys…) (((s…) n)…))` ↦ `((sample…) n)` -/
+def hSampleReduce : Handler := handler fun args =>
+  match args with
+  | [k, keys, ins] => do
+    pure (pairOutL (sampleReduce (← k.toNat?) (fnOf (← keys.toNats?) 0) (← toInputs? ins)))
+  | _ => none
+
+/-- `(choicesreduce k (picks…) (((s…) n)…))` ↦ `(ok (sample…) n)` | `(raised)` -/
+def hChoicesReduce : Handler := handler fun args =>
+  match args with
+  | [k, picks, ins] => do
+    match choicesReduce (← k.toNat?) (fnOf (← picks.toNats?) 0) (← toInputs? ins) with
+    | some r => pure (.list [.sym "ok", SExp.ofNats r.1, SExp.ofNat r.2])
+    | none => pure raised
+  | _ => none
+
+/-- `(randomsample ((keepbits…)…) ((part…)…))` ↦ `((part…)…)` -/
+def hRandomSample : Handler := handler fun args =>
+  match args with
+  | [keeps, parts] => do
+    let keeps ← keeps.toNatss?
+    let parts ← parts.toNatss?
+    let O : Oracle := { geom := fun _ _ => 1, slot := fun _ _ => 0, key := fun _ _ _ => 0, pick := fun _ _ _ => 0,
+                        keep := fun i j => (keeps.getD i []).getD j 0 != 0 }
+    pure (SExp.ofNatss (randomSample O parts))
+  | _ => none
+
+/-- `(tree se (sizes…))`: `Bag.reduction` over the free term algebra — the shape of the task tree:
+    `(leaf i)` per non-skipped partition, `(node depth i children…)` per aggregate task; `(hang)` -/
+def hTree : Handler := handler fun args =>
+  match args with
+  | [se, sizes] => do
+    let se ← se.toNat?
+    let sizes ← sizes.toNats?
+    let parts := sizes.map fun n => List.replicate n (0 : Nat)
+    match reductionIx (β := SExp) (fun i _ => .list [.sym "leaf", SExp.ofNat i])
+        (fun d i xs => .list (.sym "node" :: SExp.ofNat d :: SExp.ofNat i :: xs)) se parts with
+    | some t => pure t
+    | none => pure (.list [.sym "hang"])
+  | _ => none
+
+def hLevelSizes : Handler := handler fun args =>
+  match args with
+  | [se, k] => do pure (SExp.ofNats (levelSizes (← se.toNat?) ((← k.toNat?) + 1) (← k.toNat?)))
+  | _ => none
+
+def tableC49 : List (String × Handler) := [
+  ("samplemap", hSampleMap), ("choicesmap", hChoicesMap), ("samplereduce", hSampleReduce),
+  ("choicesreduce", hChoicesReduce), ("randomsample", hRandomSample), ("tree", hTree),
+  ("levelsizes", hLevelSizes)]
+
+end BagDriver
+
+def table : List (String × Handler) := BagDriver.tableC50 ++ BagDriver.tableC49
 
 def main : IO Unit := runDriver table
